@@ -12,9 +12,11 @@ package redis
 //@ ghost var root_open int      // 1 while the current request's root span is started and not finished
 //@ ghost var sock_closed bool   // the client socket has been closed
 //@ ghost var cur_uuid uuid.UUID // the identifier given to the connection object of this unit
+//@ ghost var pending int        // sockets accepted by an accept loop and neither closed nor handed to a connection goroutine
+//@ ghost var accept_failed bool // the last Accept of the accept loop returned an error
 //@ ghost var authed bool        // an AUTH carrying exactly the configured password has succeeded on this connection
 
-//@ spec func srvOK(s ref) bool = s != nil && s.ServerConfig != nil && s.ServerConfig.Config != nil && s.ServerConfig.Config.params != nil && s.AuthManager != nil && s.ConnManager != nil && s.ConnManager.m != nil && s.ConnManager.mutex != nil && s.Tracer != nil && s.commandExecutors != nil && s.systemCommandHandler != nil
+//@ spec func srvOK(s ref) bool = s != nil && s.ServerConfig != nil && s.ServerConfig.Config != nil && s.ServerConfig.Config.params != nil && s.AuthManager != nil && authsOK(s.AuthManager) && s.ConnManager != nil && s.ConnManager.m != nil && s.ConnManager.mutex != nil && s.Tracer != nil && s.commandExecutors != nil && s.systemCommandHandler != nil
 //@ spec func isAuthCmd(cmd string) bool = toUpper(cmd) == "AUTH"
 
 // ---------------------------------------------------------------- conn.go
@@ -169,20 +171,21 @@ package redis
 //@ func (*Server).handleMessage
 //@ requires srvOK(server) && conn != nil && msg != nil && conn.Context != nil && span_depth >= 0 && root_open == 1
 //@ requires {C08} server.userCommandHandler != nil ==> true
-//@ assigns proto.Array.index, conn.id, conn.authrized, conn.username, conn.password, conn.hasPassword, comp:MD|Str|Str, comp:MV|Str|Str, H_*, span_depth, authed, alloc
+//@ assigns proto.Array.index, conn.id, conn.authrized, conn.username, conn.password, conn.hasPassword, comp:MD|Str|Str, comp:MV|Str|Str, H_*, A_calls, A_fail, span_depth, authed, alloc
 //@ ensures {C20} span_depth == old(span_depth)
 //@ ensures {C08} conn.authrized && !old(conn.authrized) ==> authed
 //@ ensures {C08} old(authed) ==> authed
 
 //@ func (*Server).handleArrayMessage
 //@ requires srvOK(server) && conn != nil && arrayMsg != nil && conn.Context != nil && span_depth >= 0 && root_open == 1
-//@ assigns proto.Array.index, conn.id, conn.authrized, conn.username, conn.password, conn.hasPassword, comp:MD|Str|Str, comp:MV|Str|Str, H_*, span_depth, authed, alloc
+//@ assigns proto.Array.index, conn.id, conn.authrized, conn.username, conn.password, conn.hasPassword, comp:MD|Str|Str, comp:MV|Str|Str, H_*, A_calls, A_fail, span_depth, authed, alloc
 //@ ensures {C20} span_depth == old(span_depth)
 //@ ensures {C08} conn.authrized && !old(conn.authrized) ==> authed
 //@ ensures {C08} old(authed) ==> authed
 //@ ensures {C07,C04} arrayMsg != nil
 
 //@ func (*Server).receive
+//@ spawned pending: pending - 1
 //@ requires srvOK(server) && conn != nil
 //@ requires 0 <= S_pos && S_pos <= S_end && S_end <= 17592186044416
 //@ requires replies == 0 && requests == 0 && root_open == 0 && span_depth == 0 && !sock_closed && !authed
@@ -196,6 +199,7 @@ package redis
 //@   invariant {C19} !handlerConn.isClosed && !sock_closed && handlerConn != nil && handlerConn.Conn == conn && handlerConn.uuid == cur_uuid
 //@   invariant {C19} forall u uuid.UUID :: u != cur_uuid ==> dom(server.ConnManager.m, u) == old(dom(server.ConnManager.m, u))
 //@   invariant {C08} handlerConn.authrized ==> (!isPasswdRequired || authed)
+//@   entry_assert {C09} tlsState != nil ==> A_fail == old(A_fail)
 //@   invariant srvOK(server) && parser != nil && parser.reader != nil && 0 <= S_pos && S_pos <= S_end
 //@   diverges
 
@@ -218,14 +222,14 @@ package redis
 //@ requires conn != nil && args != nil && conn.Context != nil && span_depth >= 1 && root_open == 1
 //@ requires srvOK(server) && server.userCommandHandler != nil
 //@ requires {C08} conn.authrized || isAuthCmd(cmd)
-//@ assigns proto.Array.index, conn.id, conn.authrized, conn.username, conn.password, conn.hasPassword, comp:MD|Str|Str, comp:MV|Str|Str, H_*, span_depth, authed, alloc
+//@ assigns proto.Array.index, conn.id, conn.authrized, conn.username, conn.password, conn.hasPassword, comp:MD|Str|Str, comp:MV|Str|Str, H_*, A_calls, A_fail, span_depth, authed, alloc
 //@ ensures {C20} span_depth == old(span_depth)
 //@ ensures {C08} conn.authrized && !old(conn.authrized) ==> authed
 //@ ensures {C08} old(authed) ==> authed
 
 //@ func (*Server).executeCommand
 //@ requires srvOK(server) && conn != nil && args != nil && conn.Context != nil && span_depth >= 0 && root_open == 1
-//@ assigns proto.Array.index, conn.id, conn.authrized, conn.username, conn.password, conn.hasPassword, comp:MD|Str|Str, comp:MV|Str|Str, H_*, span_depth, authed, alloc
+//@ assigns proto.Array.index, conn.id, conn.authrized, conn.username, conn.password, conn.hasPassword, comp:MD|Str|Str, comp:MV|Str|Str, H_*, A_calls, A_fail, span_depth, authed, alloc
 //@ ensures {C20} span_depth == old(span_depth)
 //@ ensures {C08} conn.authrized && !old(conn.authrized) ==> authed
 //@ ensures {C08} old(authed) ==> authed
@@ -465,11 +469,12 @@ package redis
 
 //@ func (*Server).Auth
 //@ requires srvOK(server) && conn != nil
-//@ assigns conn.username, conn.password, conn.hasPassword, conn.authrized, authed
+//@ assigns conn.username, conn.password, conn.hasPassword, conn.authrized, authed, A_calls, A_fail
 //@ defines authed: old(authed) || err == nil
 //@ ensures {C08} err == nil ==> conn.authrized && result0 != nil
 //@ ensures {C08} err != nil ==> conn.authrized == old(conn.authrized) && result0 == nil
 //@ ensures {C08} conn.password == password && conn.hasPassword && conn.username == username
+//@ ensures {C08} err == nil ==> A_fail == old(A_fail) && A_calls == old(A_calls) + len(server.AuthManager.authenticators)
 
 // the interfaces through which the executors reach those handlers
 //@ interface redis.SystemCommandHandler.Ping(conn, arg)
@@ -487,7 +492,7 @@ package redis
 //@ interface redis.SystemCommandHandler.ConfigGet(conn, keys)
 //@ ensures err == nil && result0 != nil
 //@ interface redis.AuthCommandHandler.Auth(conn, username, password)
-//@ assigns conn.username, conn.password, conn.hasPassword, conn.authrized, authed
+//@ assigns conn.username, conn.password, conn.hasPassword, conn.authrized, authed, A_calls, A_fail
 //@ ensures {C08} conn.authrized && !old(conn.authrized) ==> authed
 //@ ensures {C08} old(authed) ==> authed
 //@ ensures {C08} err != nil ==> conn.authrized == old(conn.authrized)
@@ -549,3 +554,36 @@ package redis
 //@ loop 1
 //@   invariant {C03} args.index <= len(args.msgs) && fresh(members)
 //@   decreases len(args.msgs) - args.index + (err == nil ? 1 : 0)
+
+// ---------------------------------------------------------------- tls_config.go
+
+//@ func (*ServerConfig).ConfigTLSConfig
+//@ assigns nothing
+//@ ensures result1 == (cfg.TLSConfig != nil) && (result1 ==> result0 == cfg.TLSConfig) && (!result1 ==> result0 == nil)
+
+//@ func NewTLSConfigFrom
+//@ requires config != nil
+//@ ensures {C09} err == nil ==> result0 != nil
+//@ ensures {C09} err == nil && old(config.TLSConfig) == nil ==> result0.ClientAuth == tls.RequireAndVerifyClientCert && result0.ClientCAs != nil && result0.MinVersion >= tls.VersionTLS12
+//@ ensures {C09} err != nil ==> result0 == nil
+
+// ---------------------------------------------------------------- accept loops
+
+//@ func (*Server).close
+//@ flag nilable_recv
+
+//@ func (*Server).serve
+//@ requires pending == 0
+//@ ensures {C09,C19} pending == 0
+//@ ensures {C09} result != nil ==> accept_failed
+//@ loop 0
+//@   invariant {C09,C19} pending == 0
+//@   diverges
+
+//@ func (*Server).tlsServe
+//@ requires pending == 0
+//@ ensures {C09,C19} pending == 0
+//@ ensures {C09} result != nil ==> accept_failed
+//@ loop 0
+//@   invariant {C09,C19} pending == 0
+//@   diverges
